@@ -31,12 +31,30 @@ def run(tier):
             info[tname] = (info[name][0], buf, plain)
             scripts.append("case %s 20\nctx 0\nopen 0 %s r\nioption 0 %d %d\ninit_read 0 0\ndump 0\nend\n" % (tname, info[name][0], opt, val))
             twins.append((tname, buf, plain))
+    # a context used again for another file: the first file's header is refused after its lead was accepted (sealed, but an
+    # unsupported compression type or flag), the error is cleared, and the SAME context opens an accepted header through the
+    # advanced calls - what it then reports is the second file's, nothing of the first survives
+    # (unknown compression types: that refusal is not fatal, the context can be cleared and used on; a header whose chunk
+    # count is wrong is refused fatally and the context then refuses everything)
+    refused = [t for t in fam if "comp_type" in t[0] and (lambda hh: hh.ok and hh.sealed and not hh.supported)(ref.parse_header(t[1]))][:6] + \
+              [t for t in fam if "comp_type" not in t[0] and (lambda hh: hh.ok and hh.sealed and not hh.supported)(ref.parse_header(t[1]))][:2]
+    nre = 0
+    for (name, buf, plain) in [t for t in fam]:
+        h = ref.parse_header(buf)
+        if not (h.ok and h.sealed and h.supported and hdrfam.fits(h)) or not refused or nre >= (40 if tier == "quick" else 400):
+            continue
+        ra = refused[nre % len(refused)]
+        tname = "%s+after:%s" % (name, ra[0])
+        info[tname] = (info[name][0], buf, plain)
+        scripts.append("case %s 20\nctx 0\nopen 0 %s r\ninit_adv_read 0 0\nread_lead 0\nread_header 0\nclear_error 0\nclosefd 0\nopen 0 %s r\ninit_adv_read 0 0\nread_lead 0\nread_header 0\ndump 0\nend\n" % (tname, info[ra[0]][0], info[name][0]))
+        twins.append((tname, buf, False)); nre += 1
+    ck.extra["twins_on_a_context_used_for_a_refused_file_before"] = nre
     fam = list(fam) + twins
     # allocation failures in the advanced open (zck_init_adv_read, zck_read_lead, zck_read_header), the failed call repeated by
     # the caller after zck_clear_error: if the repeated call reports success, what is reported is still the file's
     from .. import allocfault
     asw = []
-    for (name, buf, plain) in [t for t in fam if "+opt" not in t[0]]:
+    for (name, buf, plain) in [t for t in fam if "+opt" not in t[0] and "+after:" not in t[0]]:
         h = ref.parse_header(buf)
         if not (h.ok and h.sealed and h.supported and hdrfam.fits(h) and len(h.entries) >= 3) or len(asw) >= (3 if tier == "quick" else 12):
             continue
@@ -65,7 +83,10 @@ def run(tier):
         h = ref.parse_header(buf)
         f = {"ok": bool(h.ok), "sealed": bool(h.sealed), "supported": bool(h.supported), "fits": hdrfam.fits(h)}
         trace.append({"op": "reset"}); owner.append(name)
-        if "+alloc" in name and ce and not any(e["op"] == "Hang" for e in ce):
+        if "+after:" in name and ce and not any(e["op"] in ("Crash", "Hang") for e in ce):
+            rh = [e for e in ce if e["op"] == "read_header"]
+            op = rh[-1] if rh else {"ret": 0}
+        elif "+alloc" in name and ce and not any(e["op"] == "Hang" for e in ce):
             if any(e["op"] == "Crash" for e in ce):
                 ck.case(name); continue                    # the process ended on the refused allocation: nothing was reported
             rh = [e for e in ce if e["op"] == "read_header"]
@@ -88,7 +109,7 @@ def run(tier):
     ntool = 0
     for (name, buf, plain) in fam:
         h = ref.parse_header(buf)
-        if "+opt" in name or "+alloc" in name or not (h.ok and h.sealed and h.supported and hdrfam.fits(h)):
+        if "+opt" in name or "+alloc" in name or "+after:" in name or not (h.ok and h.sealed and h.supported and hdrfam.fits(h)):
             continue
         if tier == "quick" and ntool >= 60:
             break
